@@ -665,6 +665,31 @@ func R8Pivot(c *Ctx) {
 						evs = append(evs, ev{call, "id", AccessPath(base)})
 					}
 				}
+			default:
+				// a helper of this package that parses the name id it is given
+				h := call.Common().StaticCallee()
+				if h == nil || h.Blocks == nil || FuncPkgPathOf(h) != PkgAgent {
+					continue
+				}
+				for i, a := range call.Common().Args {
+					addr, ok := Deref(a)
+					if !ok || i >= len(h.Params) {
+						continue
+					}
+					_, f, base, ok := FieldOf(addr)
+					if !ok || f != "NameID" {
+						continue
+					}
+					parses := false
+					EachCall(h, func(hc ssa.CallInstruction) {
+						if n := CalleeName(hc); (n == "strconv.ParseInt" || n == "strconv.ParseUint") && hc.Common().Args[0] == ssa.Value(h.Params[i]) {
+							parses = true
+						}
+					})
+					if parses {
+						evs = append(evs, ev{call, "id", AccessPath(base)})
+					}
+				}
 			}
 		}
 	}
